@@ -137,6 +137,23 @@ def extract(config='dev', repo=None):
         if missing:
             shutil.rmtree(tmp, ignore_errors=True)
             raise ExtractError('fact files missing after extraction: %s\n%s' % (missing, out[-2000:]))
+        # the resolved build graph (which features each dependency is compiled with): cargo's resolution, nothing is run
+        mp = subprocess.run(['cargo', 'metadata', '--offline', '--format-version', '1'], cwd=repo, env=_env(),
+                            stdout=subprocess.PIPE, stderr=subprocess.PIPE)
+        if mp.returncode != 0:
+            shutil.rmtree(tmp, ignore_errors=True)
+            raise ExtractError('cargo metadata failed:\n' + mp.stderr.decode(errors='replace')[-2000:])
+        md = json.loads(mp.stdout.decode())
+        idname = {p['id']: (p['name'], p['version']) for p in md['packages']}
+        graph = {'root': None, 'nodes': []}
+        for n in (md.get('resolve') or {}).get('nodes', []):
+            nm, ver = idname.get(n['id'], (n['id'], '?'))
+            graph['nodes'].append({'name': nm, 'version': ver, 'features': sorted(n.get('features', [])),
+                                   'deps': sorted(idname.get(d['pkg'], (d['pkg'], '?'))[0] for d in n.get('deps', []))})
+        rid = (md.get('resolve') or {}).get('root')
+        graph['root'] = idname.get(rid, (None, None))[0]
+        with open(os.path.join(tmp, 'BUILD.graph'), 'w') as fh:
+            json.dump(graph, fh, indent=1)
         with open(os.path.join(tmp, 'META.json'), 'w') as fh:
             json.dump({'repo': repo, 'config': config, 'tree_hash': th, 'cmd': ' '.join(cmd),
                        'rustflags': env['RUSTFLAGS'], 'wall_s': round(time.time() - t0, 2)}, fh)
